@@ -146,7 +146,7 @@ def x12n_document(param, src_file, fd_997, fd_html,
                         err_str = "Map not found.  icvn={}, fic={}, vriic={}".format(icvn, fic, vriic)
                         raise pyx12.errors.EngineError(err_str)
                     cur_map = pyx12.map_if.load_map_file(map_file, param, map_path)
-                    src.check_837_lx = True if cur_map.id == '837' else False
+                    src.check_837_lx = True if cur_map.id.startswith('837') else False
                     logger.debug('Map file: %s' % (map_file))
                     #apply_loop_count(orig_node, cur_map)
                     #reset_isa_counts(cur_map)
@@ -176,7 +176,7 @@ def x12n_document(param, src_file, fd_997, fd_html,
                                         icvn, fic, vriic, tspc)
                             raise pyx12.errors.EngineError(err_str)
                         cur_map = pyx12.map_if.load_map_file(map_file, param, map_path)
-                        src.check_837_lx = True if cur_map.id == '837' else False
+                        src.check_837_lx = True if cur_map.id.startswith('837') else False
                         logger.debug('Map file: %s' % (map_file))
                         #apply_loop_count(node, cur_map)
                         node = cur_map.getnodebypath('/ISA_LOOP/GS_LOOP/ST_LOOP/HEADER/BHT')
